@@ -16,7 +16,8 @@ RULE = (
     "boundaries; no_proxy lists of one entry (all) and two entries (reduced set) from {'*', host, '.d' for every d in the "
     "host set, canonical CIDR blocks of every prefix length 0..32}; sources rotate over option vs no_proxy/NO_PROXY and "
     "proxy by option vs http_proxy/https_proxy/HTTP_PROXY/HTTPS_PROXY x ws/wss. (B) Hypothesis: full connect() through a "
-    "simulated HTTP proxy: credentials, every reply status class, ws/wss. Non-trivial: exempt decisions, look-alike "
+    "simulated HTTP proxy: credentials (also longer than one base64 line), every reply status class, ws/wss; redirects "
+    "from one target to another whose exemption / scheme differs (the decision is per hop). Non-trivial: exempt decisions, look-alike "
     "hosts (string suffix but not on a label boundary), IP hosts against CIDR entries, env-vs-option conflicts, tunnels. "
     "Enumerated decisions are distinct by construction."
 )
@@ -329,9 +330,83 @@ def run_tunnel(case):
     return obs
 
 
+def run_redirect(case):
+    """A redirect hop is a new connection: the proxy decision is taken again for the new target."""
+    import websocket
+
+    obs = Obs()
+    h1, h2 = case["host"], case["redirect_to"]
+    sec2 = case.get("secure2", False)
+    entries = case.get("no_proxy") or []
+    for k in ENV_KEYS:
+        os.environ.pop(k, None)
+    kw = {}
+    psrc = case["proxy_src"]
+    if psrc == "opt":
+        kw.update(http_proxy_host="proxy.opt", http_proxy_port=3128)
+        pw = {False: ("proxy.opt", 3128), True: ("proxy.opt", 3128)}
+    else:
+        os.environ["http_proxy"] = "http://proxy.plain:8080"
+        if case.get("https_env", True):
+            os.environ["https_proxy"] = "http://proxy.secure:8443"
+        pw = {False: ("proxy.plain", 8080), True: ("proxy.secure", 8443) if case.get("https_env", True) else None}
+    if entries:
+        if case.get("np_src", "opt") == "opt":
+            kw["http_no_proxy"] = list(entries)
+        else:
+            os.environ["no_proxy"] = ",".join(entries)
+    url2 = f"{'wss' if sec2 else 'ws'}://{h2}:9200/second"
+    net = simnet.Net()
+
+    def factory(sock, addr):
+        def respond(req, s_, n):
+            if req.startswith(b"CONNECT "):
+                return [b"HTTP/1.1 200 Connection established\r\n\r\n"]
+            if s_.index == 0:
+                return [f"HTTP/1.1 302 Found\r\nLocation: {url2}\r\n\r\n".encode()]
+            return [simnet.ok_response(req)]
+
+        return simnet.HttpPeer(respond)
+
+    net.peer_factory = factory
+    raised = None
+    try:
+        with net.installed():
+            try:
+                if case.get("api") == "create_connection":
+                    websocket.create_connection(f"ws://{h1}:9100/first", timeout=4, **kw)
+                else:
+                    websocket.WebSocket().connect(f"ws://{h1}:9100/first", **kw)
+            except Exception as e:  # noqa: BLE001
+                raised = e
+    finally:
+        for k in ENV_KEYS:
+            os.environ.pop(k, None)
+    dials = [(c[0], c[1]) for c in net.resolver_calls]
+    ex1, ex2 = exempt(h1, entries), exempt(h2, entries)
+    want1 = (h1, 9100) if ex1 or pw[False] is None else pw[False]
+    want2 = (h2, 9200) if ex2 or pw[sec2] is None else pw[sec2]
+    if raised is not None:
+        obs.fail(exc_bucket("redirect|raised", raised), f"{type(raised).__name__}: {raised}")
+    elif dials[:1] != [want1]:
+        obs.fail("redirect|first-hop-dial", f"dialled {dials[:1]}, expected {want1}")
+    elif dials[1:2] != [want2]:
+        why = "exempt-target-proxied" if ex2 and want2 != dials[1:2] and ex2 else "proxy-bypassed-or-wrong-proxy"
+        obs.fail(f"redirect|second-hop-dial|{why}", f"hop 1 {h1} exempt={ex1}, hop 2 {url2} exempt={ex2}: dialled {dials}, expected second dial {want2}; no_proxy={entries} src={psrc}")
+    elif len(net.sockets) > 1 and want2 != (h2, 9200):
+        line = bytes(net.sockets[1].sent).split(b"\r\n", 1)[0].decode("latin-1")
+        if line != f"CONNECT {h2}:9200 HTTP/1.1":
+            obs.fail("redirect|second-hop-connect-line", f"{line!r}")
+    obs.cls = ("redirect", f"src:{psrc}", f"exempt1:{int(ex1)}", f"exempt2:{int(ex2)}", f"secure2:{int(sec2)}")
+    obs.nt = ("redirect", h1, h2, tuple(entries), psrc, sec2, case.get("np_src"), case.get("api"), case.get("https_env", True))
+    return obs
+
+
 def run_case(case):
     if "batch" in case:
         return run_batch(case)
+    if "redirect_to" in case:
+        return run_redirect(case)
     return run_tunnel(case)
 
 
@@ -343,10 +418,15 @@ def tunnels(draw):
         "host": host, "port": draw(st.sampled_from([None, None, 8080, 443, 80, 9443])), "secure": draw(st.booleans()),
         "proxy_src": draw(st.sampled_from(["opt", "opt", "env", "env", "none"])), "no_proxy": entries,
         "np_src": draw(st.sampled_from(["opt", "env"])), "status": draw(st.sampled_from([200, 200, 200, 201, 204, 301, 403, 407, 500, 502, 100, 199])),
-        "auth": draw(st.sampled_from([None, None, ["user", "pass"], ["u", "p:w"], ["name", "secret word"]])),
+        "auth": draw(st.sampled_from([None, None, ["user", "pass"], ["u", "p:w"], ["name", "secret word"], ["u" * 30, "p" * 27], ["u" * 30, "p" * 28],
+                                      ["a-rather-long-user-name@corp.example", "an even longer pass phrase with blanks 0123456789 0123456789 0123456789"]])),
         "api": draw(st.sampled_from(["connect", "create_connection"])), "lower": draw(st.booleans()), "envport": draw(st.booleans()),
         "phdr": draw(st.booleans()),
     }
+    if draw(st.integers(0, 3)) == 0:
+        return {"host": host, "redirect_to": draw(st.sampled_from(NAMES + IP_HOSTS[:6] + ["example.com", "api.example.com", "badexample.com"])),
+                "no_proxy": entries, "np_src": c["np_src"], "proxy_src": draw(st.sampled_from(["opt", "env"])), "secure2": draw(st.booleans()),
+                "https_env": draw(st.booleans()), "api": c["api"]}
     return c
 
 
